@@ -1,6 +1,6 @@
 (* C08 — property theorems (statements only; proofs live in Proofs*.v).  See notes/C08.md for the status of each. *)
 From Coq Require Import List ZArith QArith Qabs Bool.
-Require Import QV.C08.Model QV.C08.Spec QV.C08.Wf QV.C08.Proofs QV.C08.ProofsVec QV.C08.ProofsRev QV.C08.ProofsConst QV.C08.ProofsTotal QV.C08.ProofsProper QV.C08.ProofsCtor QV.C08.Hist QV.C08.ProofsHist.
+Require Import QV.C08.Model QV.C08.Spec QV.C08.Wf QV.C08.Proofs QV.C08.ProofsVec QV.C08.ProofsRev QV.C08.ProofsConst QV.C08.ProofsTotal QV.C08.ProofsProper QV.C08.ProofsCtor QV.C08.Hist QV.C08.ProofsHist QV.C08.ProofsTrafo QV.C08.ProofsConstT QV.C08.ProofsTotalT.
 Import ListNotations.
 Open Scope Q_scope.
 
@@ -23,12 +23,12 @@ Print Assumptions C08_get_sampled_pointwise.
 Definition C08_constant_statement : Prop :=
   forall w, okb w = true -> forall c v t, inb c (channels w) = true -> cv w c = Some v -> 0 <= t -> t <= duration w ->
   exists v', sample w c t = Some v' /\ v' == v.
-(* proved: all waveforms without a TransformingWaveform node, t in [0, duration) *)
-Theorem C08_constant_partial : forall w, okb w = true -> no_trans w = true -> forall c v t,
+(* proved for ALL waveform classes on [0, duration) (guard_C08_nan_at_duration: t < duration) *)
+Theorem C08_constant : forall w, okb w = true -> forall c v t,
   inb c (channels w) = true -> cv w c = Some v -> 0 <= t -> t < duration w ->
   exists v', sample w c t = Some v' /\ v' == v.
-Proof. exact cv_sound_no_trans. Qed.
-Print Assumptions C08_constant_partial.
+Proof. exact cv_sound. Qed.
+Print Assumptions C08_constant.
 (* the full statement fails at t = duration on the unchanged code: unsafe_sample of a plain sequence of equal constants *)
 Theorem C08_constant_refuted_at_duration :
   exists w c t v, okb w = true /\ cv w c = Some v /\ Qeq_bool t (duration w) = true /\ sample w c t = None /\ gs w c t = Some v.
@@ -86,17 +86,29 @@ Theorem C08_reversed_junction_refuted :
 Proof. exact reversed_junction_refuted. Qed.
 Print Assumptions C08_reversed_junction_refuted.
 
-(* ---- totality under the executable guards that exclude exactly the refuted classes (no TransformingWaveform) ---- *)
-(* guard_C08_nan_at_duration + guard_C08_reversed_composite = [rightopenb] and t < duration *)
-Theorem C08_total_guarded : forall w, okb w = true -> rightopenb w = true -> forall c t,
-  inb c (channels w) = true -> 0 <= t -> t < duration w -> exists v, sample w c t = Some v.
-Proof. exact total_rightopen. Qed.
+(* ---- totality for all waveform classes under the executable guards that exclude exactly the refuted classes ---- *)
+(* guards: [rightopenT] (reversal only around sequence/repetition-free waveforms) + t < duration
+   (C08-nan-at-duration, C08-reversed-composite-junction), [kerr w c = false] (C08-chain-parallel-linear-keyerror) *)
+Theorem C08_total_guarded : forall w, okb w = true -> rightopenT w = true -> forall c t,
+  inb c (channels w) = true -> kerr w c = false -> 0 <= t -> t < duration w -> exists v, sample w c t = Some v.
+Proof. exact total_rightopen_T. Qed.
 Print Assumptions C08_total_guarded.
 (* without sequence / repetition nodes the closed interval is covered *)
-Theorem C08_total_closed : forall w, okb w = true -> closedb w = true -> forall c t,
-  inb c (channels w) = true -> 0 <= t -> t <= duration w -> exists v, sample w c t = Some v.
-Proof. exact total_closed. Qed.
+Theorem C08_total_closed : forall w, okb w = true -> closedT w = true -> forall c t,
+  inb c (channels w) = true -> kerr w c = false -> 0 <= t -> t <= duration w -> exists v, sample w c t = Some v.
+Proof. exact total_closed_T. Qed.
 Print Assumptions C08_total_closed.
+Theorem C08_total_keyerror_refuted :
+  exists w c t, okb w = true /\ closedT w = true /\ inb c (channels w) = true /\ kerr w c = true /\
+                get_sampled w c [t] = Err EKey.
+Proof.
+  exists (WTrans (WMulti [WTable 4%N [mkE 0 1 Hold; mkE 1 2 Linear]; WTable 3%N [mkE 0 1 Hold; mkE 1 2 Linear]])
+                 (TChain [TParallel [(1%N, TC 3)]; TLinear [1%N; 3%N] [2%N] [[1; 1]]])), 4%N, (1#2).
+  exact (conj (proj1 total_keyerror_refuted) (conj (proj1 (proj2 total_keyerror_refuted))
+        (conj (proj1 (proj2 (proj2 total_keyerror_refuted))) (conj (proj1 (proj2 (proj2 (proj2 total_keyerror_refuted))))
+        (proj1 (proj2 (proj2 (proj2 (proj2 (proj2 total_keyerror_refuted)))))))))).
+Qed.
+Print Assumptions C08_total_keyerror_refuted.
 
 (* ---- optimising constructors: the constant-folding branch samples like the plain composite (on [0, duration)) ---- *)
 (* ConstantWaveform.from_mapping: one constant per binding (sorted multi-channel waveform): every bound channel is answered
